@@ -165,6 +165,14 @@ func (c *TLSServerConfig) loadCertificate(tlsCfg *tls.Config) error {
 	return err
 }
 
+// redactDataURI hides the payload of inline "data:" certificates and keys in log messages.
+func redactDataURI(s string) string {
+	if strings.HasPrefix(s, "data:") {
+		return "data:xxxxx"
+	}
+	return s
+}
+
 func loadX509KeyPair(certFile, keyFile string) (tls.Certificate, error) {
 	certPEMBlock, err := ReadFileOrBase64(certFile)
 	if err != nil {
